@@ -88,7 +88,13 @@ def forced_conditionals(sampler, f_assignments=None, max_outputs=14):
             # rows whose prefix already has probability 0 may see 0/0 -> nan; they contribute 0
             contrib = np.where(bits, pp, 1 - pp)
             contrib = np.where(state["p"] == 0, 0.0, contrib)
-            if np.any(np.isnan(contrib)) or np.any(contrib < -1e-6) or np.any(contrib > 1 + 1e-6):
+            # an excursion of a Bernoulli parameter outside [0,1] is weighted with the probability of the path so far, like every
+            # other quantity of the properties (prev is a float32 difference: on a path whose exact probability is 0 and whose
+            # float value is 1e-9, p1/prev is rounding residue and carries 1e-9 of probability mass at most)
+            exc = np.where(np.isnan(contrib), np.inf, np.maximum(np.maximum(-contrib, contrib - 1.0), 0.0))
+            with np.errstate(invalid="ignore"):
+                mass = np.where(state["p"] > 0, np.where(np.isinf(exc), np.where(state["p"] > 1e-6, np.inf, 0.0), exc * state["p"]), 0.0)
+            if np.any(mass > 1e-6):
                 state["bad"].append((j, pp.tolist()))
             state["p"] = state["p"] * np.nan_to_num(contrib)
             return jnp.array(bits)
